@@ -228,6 +228,36 @@ class Mutation:
         self._m[fn.id] = res
         return res
 
+    def written_roots(self, g):
+        """{'this': bool, 'params': set of parameter indices} the function writes observable state through (directly), or None when it
+        also mutates through further library calls (then everything it can reach counts)."""
+        for n in g.nodes:
+            if (g.is_call(n) or g.is_construct(n)) and n in g.nodes and self.call_mutates(g, n):
+                return None
+        pidx = {pp['id']: i for i, pp in enumerate(g.params)}
+        out = {'this': False, 'params': set()}
+        for (pos, node, desc) in self.observable_writes(g):
+            pass
+        for w in self.info.writes(g):
+            p = w['path']
+            vid = root_var_id(p)
+            if p[0] == 'this':
+                flds = fields_in(p)
+                if flds and flds[0] in NONOBSERVABLE_FIELDS:
+                    continue
+                if w['how'].startswith('call:') and w['how'][5:] in ('begin', 'end', 'front', 'back', 'lock', 'get', 'load', 'data', 'operator bool', 'find', 'empty', 'cbegin', 'cend'):
+                    continue
+                if w['how'] == 'guard':
+                    continue
+                if w['how'].startswith('arg:'):
+                    k = w['how'][4:]
+                    if not (k.endswith('::splice') or k.endswith('swap') or k.endswith('::merge')):
+                        continue     # e.g. a mutex handed to a lock_guard
+                out['this'] = True
+            elif vid is not None and vid in pidx:
+                out['params'].add(pidx[vid])
+        return out
+
     def call_mutates(self, fn, n):
         """The call n (to a library function with a body) writes observable state as seen from fn."""
         gs = fn.callee_fns(n)
@@ -248,6 +278,34 @@ class Mutation:
             roots.append(path(fn, a))
         if not obj and g.d.get('cls') and not g.d.get('static'):
             roots.append(('this',))
+        # which of its roots does the callee really write? (a helper that only fills a list handed in by reference and takes a node
+        # from the free list changes nothing observable when that list is a fresh local of the caller)
+        wroots = self.written_roots(g)
+        if wroots is not None:
+            pidx = {pp['id']: i for i, pp in enumerate(g.params)}
+            kept = []
+            args = fn.call_args(n)
+            recv = path(fn, obj) if obj else ('this',)
+            for p in roots:
+                if p == recv:
+                    if wroots['this']:
+                        kept.append(p)
+                else:
+                    kept.append(p)
+            # arguments bound to parameters the callee never writes through are not mutated by it
+            kept2 = []
+            for p in kept:
+                if p == recv:
+                    kept2.append(p)
+                    continue
+                try:
+                    ai = [path(fn, a) for a in args].index(p)
+                except ValueError:
+                    kept2.append(p)
+                    continue
+                if ai in wroots['params']:
+                    kept2.append(p)
+            roots = kept2
         for p in roots:
             vid = root_var_id(p)
             if p[0] == 'this' or (vid is not None and vid not in fresh):
